@@ -28,12 +28,19 @@ def diff_streams(rep, prop, cfg, tier, seed, binary, workdir, kf):
     race_reports = cfg.setdefault('_race_reports', [])
     for label, args, fname in jobs:
         e = dict(os.environ, VERIF_TIER=tier, GOMEMLIMIT='6GiB')
-        if cfg.get('race'):
+        raced = cfg.get('race') or label in cfg.get('race_streams', ())
+        if raced:
             # the race detector FINDS the schedule; reports go to files, the run continues
             e['GORACE'] = f'halt_on_error=0 exitcode=0 log_path={workdir}/race-{fname}'
             os.environ['VERIF_GORACE'] = e['GORACE']
-        rc, out = lib.sh([binary] + args, env=e, timeout=6000)
+        rc, out = lib.sh([cfg['_race_binary'] if (raced and not cfg.get('race')) else binary] + args, env=e, timeout=6000)
         if rc != 0:
+            crash = lib.code_under_test_panic(out)
+            if crash:
+                # the code under test panicked outside a recovered operation (e.g. while the generator was using it to
+                # build the next input): a verdict, not a machinery error; the other streams still run
+                cfg.setdefault('_crashes', []).append(dict(crash, stream=label))
+                continue
             raise MachineryError(f'harness {label} failed rc={rc}:\n{out[-3000:]}')
         ops_p, impl_p, model_p = (f'{workdir}/{fname}.{x}' for x in ('ops', 'impl', 'model'))
         if executors.get(label) == 'http2test':
@@ -105,7 +112,7 @@ def diff_streams(rep, prop, cfg, tier, seed, binary, workdir, kf):
             sp = cfg.get('spec_part')
             (oracle_fail if kind in oracle_ops or (se and se(o, i)) or (sp and sp(o, i, m)) else corr_fail).append(rec)
         rep.oblige(f'correspondence:{label}', 'correspondence', nfail == 0, f'{len(ops)} operations, {nfail} disagreement(s)')
-        if cfg.get('race'):
+        if raced:
             import glob
             n0 = len(race_reports)
             for rf in sorted(glob.glob(f'{workdir}/race-{fname}*')):
@@ -156,6 +163,11 @@ def run_diff_property(prop, cfg, tier, seed, replay=None):
     ok, out, binary = lib.build_harness(race=cfg.get('race', False))
     if not ok:
         raise MachineryError('harness build failed (the working tree may not compile):\n' + out[-3000:])
+    if cfg.get('race_streams') and not cfg.get('race'):
+        ok, out, rb = lib.build_harness(race=True)
+        if not ok:
+            raise MachineryError('harness build (-race) failed:\n' + out[-3000:])
+        cfg = dict(cfg, _race_binary=rb)
     if cfg.get('http2_ops') or any(len(e) > 3 and e[3] == 'http2test' for e in cfg['streams']):
         ok, out, tb = lib.build_http2_test(race=cfg.get('race', False))
         if not ok:
@@ -215,6 +227,11 @@ def run_diff_property(prop, cfg, tier, seed, replay=None):
         rep.violation(f"correspondence stream {r['stream']} no longer checks (model and implementation disagree on {len(corr_fail)} operation(s)) and no input violating the specification was found",
                       dict(r, property=prop, seed=seed, tier=tier, replay_cmd=replay_cmd, broken_correspondence=r['stream'],
                            broken_obligations=broken), no_input=True)
+    elif cfg.get('_crashes'):
+        c = cfg['_crashes'][0]
+        rep.violation(f"the code under test panicked while stream {c['stream']} was running: {c['panic']} at {c['at']}",
+                      dict(c, property=prop, seed=seed, tier=tier, kind='panic-in-code-under-test', broken_obligations=broken,
+                           replay_cmd=f'python3 check/check.py {prop} --tier {tier}  (VERIF_SEED={seed})'), no_input=True)
     elif broken:
         rep.violation('proof obligation(s) no longer check: ' + '; '.join(broken)[:400],
                       {'property': prop, 'broken_obligations': broken, 'seed': seed, 'tier': tier}, no_input=True)
